@@ -473,7 +473,7 @@ def r04d(model, ctx):
               "a flip-flop must be a $dff iff arst is constant 0, otherwise an $adff with ARST=arst, ARST_POLARITY=True "
               "and ARST_VALUE=Const(init, width)", f"{RTLIL}:{ff.lineno}")
     # _ir: FlipFlop creation
-    fd = model.func(f"{IR}::NetlistEmitter.emit_drivers")
+    fd = model.func_expanded(f"{IR}::NetlistEmitter.emit_drivers")
     ffc = [n for n in ast.walk(fd) if isinstance(n, ast.Call) and unparse(n.func) == "_nir.FlipFlop"]
     need(len(ffc) == 1, "emit_drivers: FlipFlop construction not found")
     kw = {k.arg: unparse(k.value) for k in ffc[0].keywords}
@@ -487,10 +487,11 @@ def r04d(model, ctx):
     ctx.check(okr, R, "emit_drivers:reset-value", "sync reset loads Const(signal.init)",
               "the synchronous reset assignment must load signal.init over the whole signal", f"{IR}:{fd.lineno}")
     # write-enable replication agreement (_ir vs _pyrtl)
-    fw = model.func(f"{IR}::NetlistEmitter.emit_write_port")
+    fwv = model.func_view(f"{IR}::NetlistEmitter.emit_write_port")
     ok = any(unparse(s) == "en = _nir.Value([en[bit // port._granularity] for bit in range(len(port._data))])"
-             for s in ast.walk(fw))
-    fc = model.func(f"{PYRTL}::_FragmentCompiler.__call__")
+             for s in ast.walk(fwv))
+    fw = model.func_expanded(f"{IR}::NetlistEmitter.emit_write_port")
+    fc = model.func_view(f"{PYRTL}::_FragmentCompiler.__call__", depth=3)
     ok2 = any(pmatch("rhs(Cat((bit.replicate(port._granularity) for bit in port._en)))", n) is not None
               for n in ast.walk(fc))
     ctx.check(ok and ok2, R, "write-enable:granularity", "en[bit // granularity] (netlist) == replicate(granularity) (sim)",
@@ -509,13 +510,13 @@ def r04d(model, ctx):
               f"SyncWritePort fields must come from the same-named port fields; kwargs={kw}, bindings={binds}",
               f"{IR}:{fw.lineno}")
     # transparency mask / port ids (RTLIL)
-    fr = model.func(f"{RTLIL}::ModuleEmitter.emit_read_port")
+    fr = model.func_expanded(f"{RTLIL}::ModuleEmitter.emit_read_port")
     ok = any(pmatch("sum((1 << memory_info.write_port_ids[write_port_cell_index] for write_port_cell_index in cell.transparent_for))", n) is not None
              for n in ast.walk(fr))
     ctx.check(ok, R, "emit_read_port:TRANSPARENCY_MASK", "sum(1 << write_port_ids[idx] for idx in transparent_for)",
               "TRANSPARENCY_MASK must have exactly the PORTID bits of the write ports in transparent_for",
               f"{RTLIL}:{fr.lineno}")
-    fwp = model.func(f"{RTLIL}::ModuleEmitter.emit_write_port")
+    fwp = model.func_expanded(f"{RTLIL}::ModuleEmitter.emit_write_port")
     ok = "'PORTID': memory_info.write_port_ids[cell_idx]" in unparse(fwp)
     fcm = model.func(f"{RTLIL}::ModuleEmitter.collect_memory_info")
     t = unparse(fcm)
@@ -525,7 +526,7 @@ def r04d(model, ctx):
               "PORTID must be the dense per-memory index assigned (use-then-increment) in collect_memory_info",
               f"{RTLIL}:{fwp.lineno}")
     # _ir read port: transparent_for maps through write_ports[idx]
-    frp = model.func(f"{IR}::NetlistEmitter.emit_read_port")
+    frp = model.func_expanded(f"{IR}::NetlistEmitter.emit_read_port")
     ok = "transparent_for=tuple((write_ports[idx] for idx in port._transparent_for))" in unparse(frp)
     ctx.check(ok, R, "emit_read_port(_ir):transparent_for", "cell indices of write_ports[idx]",
               "SyncReadPort.transparent_for must map each index through the write_ports list built in _write_ports order",
